@@ -96,6 +96,16 @@ pub fn reset() {
     MADVISE_COUNT.store(0, Ordering::SeqCst);
 }
 
+/// Unmap ring mappings a leaked (forgotten) world left behind, so that many
+/// violating executions don't exhaust the process's mapping limit.
+pub fn unmap_leftovers() {
+    let left: Vec<Mapping> = crate::talloc::untracked(|| std::mem::take(&mut state().mappings));
+    N_MAPPINGS.store(0, Ordering::SeqCst);
+    for m in left {
+        unsafe { libc::syscall(libc::SYS_munmap, m.addr, m.len) };
+    }
+}
+
 pub fn mmap_count() -> i64 {
     MMAP_COUNT.load(Ordering::SeqCst)
 }
